@@ -112,6 +112,10 @@ def run(ctx):
             ctx.evaluations += 1
             if a.get("s") != str(q["n"]):
                 ctx.disagree("ident.decimal", q, str(q["n"]), a)
+    # whole executions of map/parallel: the id of a position is the same in every run of a branch (in-process
+    # re-submission by the timer, replay in a later invocation) and no id serves two positions
+    from harness import comp_executor
+    comp_executor.run_prop(ctx, "C08", n_quick=80, n_thorough=2000)
 
 
 def search(ctx):
@@ -126,6 +130,10 @@ def search(ctx):
 
 def replay(ctx, rec):
     case = rec["case"]
+    if "blocks" in (case.get("scenario") or {}):
+        from harness import comp_executor
+        comp_executor.replay(ctx, rec, "C08")
+        return
     if "paths" in case:
         check_paths(ctx, case["paths"])
     elif "path" in case:
